@@ -276,8 +276,18 @@ def tag_ahead(st):
         st.transitions += 1
         msgs = {}
         for e in fake.effects():
-            if e["type"] == "cmd" and e["name"] in ("commit", "tag") and "--message" in e["argv"]:
-                msgs[e["name"]] = e["argv"][e["argv"].index("--message") + 1]
+            if e["type"] == "cmd" and e["name"] in ("commit", "tag"):
+                # the message is whatever follows --message / -m, or is attached to them (the spelling of the option is the tool's business)
+                argv = e["argv"]
+                for i, a in enumerate(argv):
+                    if a in ("--message", "-m") and i + 1 < len(argv):
+                        msgs[e["name"]] = argv[i + 1]
+                    elif a.startswith("--message="):
+                        msgs[e["name"]] = a[len("--message="):]
+                    elif a.startswith("-m") and len(a) > 2 and not a.startswith("--"):
+                        msgs[e["name"]] = a[2:]
+                if e.get("logfile_content") is not None:
+                    msgs[e["name"]] = e["logfile_content"].decode("utf-8", "replace")
         want = {"commit": "bump 1.3.0 -> 1.3.1 (1.3.0)", "tag": "release 1.3.1, was 1.3.0"} if source == "config" else {"commit": "[rel] 1.3.0 -> 1.3.1", "tag": "1.3.1 after 1.3.0"}
         case = {"slot": "commit-" + source, "symbols": [], "vcs": "git", "tag_ahead": True}
         st.observe(("tag-ahead", source, o.exit, o.crashed, sorted(msgs.items())))
